@@ -13,5 +13,5 @@ if [[ "$SPEC" == sed:* ]]; then
 else
   (cd "$D" && patch -p1 -s < "$SPEC") || { echo "MUTANT-NOT-APPLIED"; rm -rf "$D"; exit 3; }
 fi
-cd /verif && VERIF_EVIDENCE_DIR=/tmp/ev_mut VERIF_REPO="$D" ./check "$PROP" "$TIER" ${EXTRA:-} 2>&1 | grep -E "VIOLATION|KNOWN|HARNESS|runs," | cut -c1-260 | head -8
+cd /verif && VERIF_EVIDENCE_DIR=/tmp/ev_mut VERIF_REPO="$D" ./check "$PROP" "$TIER" ${EXTRA:-} 2>&1 | grep -E "VIOLATION|HARNESS|runs,|MUTANT" | cut -c1-260 | head -8
 rm -rf "$D"
